@@ -116,7 +116,9 @@ def build(rng, fam, density=None):
         field = problems.field_for(fam, mesh, "planestrain")
         umat = fem.constitution.LinearElasticPlaneStrain(E=E, nu=nu)
     rho = float(rng.uniform(0.5, 5)) if density is None else density
-    return fem.SolidBody(umat, field, density=rho), field, mesh, L, (E, nu, rho)
+    # every second body carries a stiffness multiplier (the analysis must use multiplier * matrix, as Newton does)
+    mult = float(rng.uniform(0.3, 3)) if rng.integers(0, 2) else None
+    return fem.SolidBody(umat, field, density=rho, multiplier=mult), field, mesh, L, (E * (mult or 1.0), nu, rho)
 
 
 def case_constrained(fam, rep):
@@ -171,7 +173,7 @@ def case_rigid(fam, rep):
             t = rng.uniform(-3, 3, d)
             mesh2 = mesh.copy(points=mesh.points @ Q.T + t)
             field2 = problems.field_for(fam, mesh2, "3d" if d == 3 else "planestrain")
-            solid2 = fem.SolidBody(solid.umat, field2, density=rho)
+            solid2 = fem.SolidBody(solid.umat, field2, density=rho, multiplier=solid.assemble.multiplier)
             job2 = fem.FreeVibration([solid2]).evaluate(k=k, solver=shifted_solver(-1e-3 * scale))
             lam2 = np.sort(job2.eigenvalues)
             run.compare("modal.rigid", "clause=rigid-motion-invariance", maxabs(lam2[nrig:] - lam[nrig:]) / lam[-1], 1e-8,
